@@ -146,4 +146,21 @@ def wildcardDoesNotAssess (env : Env) (B D : Group) : Bool :=
          (bw.pc == .lax && (!env.loaded.contains d.name.ns || (lookup env.globals d.name).isNone))
      | none => true)
 
+/-- the two facts of `TypeSem` (Lemmas/AttrRestriction.lean) checked on the attributes that both groups
+    declare and on a finite list of values: what the driver can observe of the hypothesis `hsem` for
+    the pair at hand -/
+def typeSemOn (R : RCtx) (s : Sem) (B D : Group) (vals : List String) : Bool :=
+  D.decls.all fun d =>
+    match lookup B.decls d.name with
+    | none => true
+    | some b =>
+      !R.tyDerived d.ty b.ty ||
+      vals.all fun v =>
+        (!s.validT d.ty v || s.validT b.ty v) &&
+        (match d.fixed, b.fixed with
+         | some df, some bf =>
+           !(R.norm d.ty df == R.norm b.ty bf) || !s.validT d.ty v ||
+           !(v == df || s.valueEq d.ty v df) || (v == bf || s.valueEq b.ty v bf)
+         | _, _ => true)
+
 end XsVerif.AttrRestr
